@@ -38,7 +38,7 @@ Section FloorSys.
 
   (** a call made between events *)
   Theorem uop_DevInv fuel nw w o : DevInv P w -> DevInv P (run_uop fuel nw w o).
-  Proof. intro I. eapply R_DevInv; [apply (P_stable nw)|apply R_run_uop|exact I]. Qed.
+  Proof. intro I. eapply (R_DevInv MNeutral); [apply (P_stable nw)|apply R_run_uop|exact I]. Qed.
 
   (** System initialisation (resource manager first, then every asset in creation order) *)
   Hypothesis P_init_restore : forall nw x, P x -> d_shut x = false -> P (x <| d_last_restore := Some nw |>).
@@ -51,7 +51,7 @@ Section FloorSys.
     intros I LR. unfold init_dev. set (x := getd w d). destruct (is_holder (d_kind x)) eqn:HK; [|exact I].
     set (w1 := updd w d (fun y => dev_set_wait nw true true y)).
     assert (I1 : DevInv P w1).
-    { eapply R_DevInv; [apply (P_stable nw)| |exact I]. apply (R_dev nw w d _ _ (dp_set_wait nw true true)); [kr|exact Logic.I]. }
+    { eapply (R_DevInv MNeutral); [apply (P_stable nw)| |exact I]. apply (R_dev nw MNeutral w d _ _ (dp_set_wait nw true true)); [kr|kn|ko|exact Logic.I]. }
     destruct (d_kind x) eqn:K; try exact I1.
     - (* processor: the uptime clock starts *)
       intros d' y Hy. unfold updd, setd in Hy. cbn in Hy. apply aget_arepl_some in Hy.
@@ -69,6 +69,6 @@ Section FloorSys.
       + unfold dev_set_wait. cbn. destruct (d_wait_since x); exact K.
       + unfold dev_set_wait. cbn. destruct (d_wait_since x); apply (LR x Hx0 K).
     - (* source: the first cycle starts *)
-      eapply R_DevInv; [apply (P_stable nw)|apply R_sched_finish|exact I1].
+      eapply (R_DevInv MNeutral); [apply (P_stable nw)|apply R_sched_finish|exact I1].
   Qed.
 End FloorSys.
